@@ -39,7 +39,12 @@ Families (all members visited):
             all / an abandoned all with B on the same method and connection, then the outer iterator finished:
             it must yield exactly its own rows in order (A, B over the representative atoms)
   seq     : two calls in a row on one fresh SqlMethod / SqlMethodT object in freshly reloaded modules
-            (16 x 16 representative atoms x 6 method pairs x both placeholder styles)
+            (16 x 16 representative atoms x 6 method pairs x both placeholder styles); and every ordered pair of
+            condition lists with the same flattened (field, operator) sequence but different grouping
+            ([a, b, c], [_or(a, b), c], [_or(a, b, c)], [a, _or(b, c)], [_or(a), _or(b), c]; [a, b], [_or(a), b],
+            [_or(a, b)], [a, _or(b)]) over 4 atoms, same order clause, one method object
+            Every other case constructs its own SqlMethod object (only the thorough 'triples' family keeps one
+            object per shard).
   illtyped: operator/operand pairs the documentation does not define (outside the property: counted;
             only the "operand never in the SQL text" obligation is checked when they execute)
 """
@@ -79,7 +84,7 @@ REQUIRED_FEATURES = [
     "form:3-tuple", "form:2-tuple", "form:list", "form:object", "form:keyword", "form:or-empty", "form:or-1",
     "form:or-2", "form:or-keyword", "form:none-arg", "form:static", "form:lower-case-op",
     "form:keyword-underscore-column", "col:qualified", "col:underscore", "seq:two-calls", "val:long-list-1001", "val:long-list-2001", "val:long-list-with-null",
-    "form:static-with-literal", "objects:or-group-reused", "objects:first", "objects:non-first", "objects:twice",
+    "form:static-with-literal", "seq:same-flat-sequence-other-grouping", "objects:or-group-reused", "objects:first", "objects:non-first", "objects:twice",
     "objects:first+kw", "interleave:inner-list", "interleave:inner-one_or_none", "interleave:inner-all",
     "interleave:inner-all-abandoned", "interleave:outer-partly-consumed", "interleave:outer-untouched",
     "interleave:outer-exhausted",
@@ -359,7 +364,6 @@ def _item_alphabet(full):
 
 # ------------------------------------------------------------------------------------------ real objects
 _DB = None
-_METHODS = {}
 
 
 def _db():
@@ -413,17 +417,25 @@ class _PConn(_QConn):
 _PConn.__module__ = "mysql.connector.fake"
 
 
+_POOL = [None]      # None: every call gets a freshly constructed method object; a dict: objects are kept in it
+
+
 def _method(kind, ctor_order, select="id", ctor_scalars=False):
+    """A freshly constructed SqlMethod / SqlMethodT for every call (a case must not depend on the calls made before
+    it in the same worker).  Only the families that are about several calls on one object (run_seq), and the
+    thorough 'triples' family for speed, keep objects in a pool for a well-defined stretch."""
+    from ak.mtd_sql import SqlMethod
+    from ak.mcaller_sql import SqlMethodT
+    pool = _POOL[0]
     key = (kind, ctor_order, select, ctor_scalars)
-    m = _METHODS.get(key)
-    if m is None:
-        from ak.mtd_sql import SqlMethod
-        from ak.mcaller_sql import SqlMethodT
-        if kind == "T":
-            m = SqlMethodT(SELECTS[select], order_by=ctor_order, record_name="rec")
-        else:
-            m = SqlMethod(SELECTS[select], order_by=ctor_order, record_name="rec", as_scalars=ctor_scalars)
-        _METHODS[key] = m
+    if pool is not None and key in pool:
+        return pool[key]
+    if kind == "T":
+        m = SqlMethodT(SELECTS[select], order_by=ctor_order, record_name="rec")
+    else:
+        m = SqlMethod(SELECTS[select], order_by=ctor_order, record_name="rec", as_scalars=ctor_scalars)
+    if pool is not None:
+        pool[key] = m
     return m
 
 
@@ -776,7 +788,7 @@ def shards(tier):
     out += [("pairs", lo, min(lo + 5, na)) for lo in range(0, na, 5)]
     nd = len(_item_alphabet(True))
     out += [("deco", k, 24) for k in range(24)]
-    out += [("kw",), ("illtyped",)] + [("seq", k, 8) for k in range(8)] + [("long", k, 16) for k in range(16)] + \
+    out += [("kw",), ("illtyped",)] + [("seq", k, 8) for k in range(8)] + [("seqgroup", k, 8) for k in range(8)] + [("long", k, 16) for k in range(16)] + \
         [("objects", k, 8) for k in range(8)] + [("interleave", k, 8) for k in range(8)]
     if tier == "thorough":
         out += [("triples", i) for i in range(na)]
@@ -957,6 +969,9 @@ def run_shard(shard, tier, seed, acc):
     if kind == "seq":
         _seq_block(acc, shard[1], shard[2])
         return
+    if kind == "seqgroup":
+        _seq_groupings_block(acc, shard[1], shard[2])
+        return
     if kind == "long":
         _long_block(acc, shard[1], shard[2])
         return
@@ -967,17 +982,11 @@ def run_shard(shard, tier, seed, acc):
         _interleave_block(acc, shard[1], shard[2])
         return
     if kind == "triples":
-        a = ATOMS[shard[1]]
-        na = len(ATOMS)
-        for b in ATOMS:
-            for c in ATOMS:
-                for shape in ("and", "a-or", "or-a", "or"):
-                    _mass_run(acc, shape, (a, b, c), "q", None)
-            if acc.expired():
-                return
-        _bulk_feats(acc, [(a, 4 * na * na)] + [(b, 8 * na) for b in ATOMS],
-                    [("form:3-tuple", 12 * na * na), ("form:or-2", 2 * na * na), ("form:or-3", na * na),
-                     ("conn:q", 4 * na * na), ("method:list", 4 * na * na), ("order:id", 4 * na * na)])
+        _POOL[0] = {}                 # one method object for the whole shard (17 million cases in this family)
+        try:
+            _triples_shard(shard, acc)
+        finally:
+            _POOL[0] = None
         return
     if kind == "deco3":
         _, k, step = shard
@@ -1004,6 +1013,23 @@ def run_shard(shard, tier, seed, acc):
                                       "conn": conn}, acc)
         return
     raise ValueError(shard)
+
+
+
+def _triples_shard(shard, acc):
+    if True:
+        a = ATOMS[shard[1]]
+        na = len(ATOMS)
+        for b in ATOMS:
+            for c in ATOMS:
+                for shape in ("and", "a-or", "or-a", "or"):
+                    _mass_run(acc, shape, (a, b, c), "q", None)
+            if acc.expired():
+                return
+        _bulk_feats(acc, [(a, 4 * na * na)] + [(b, 8 * na) for b in ATOMS],
+                    [("form:3-tuple", 12 * na * na), ("form:or-2", 2 * na * na), ("form:or-3", na * na),
+                     ("conn:q", 4 * na * na), ("method:list", 4 * na * na), ("order:id", 4 * na * na)])
+        return
 
 
 ILLTYPED = [
@@ -1048,7 +1074,7 @@ def _pristine():
     import ak.mcaller_sql
     importlib.reload(ak.mtd_sql)
     importlib.reload(ak.mcaller_sql)
-    _METHODS.clear()
+    _POOL[0] = {}                     # the calls of this sequence share their method objects
 
 
 def run_seq(case, acc, count=True):
@@ -1071,7 +1097,7 @@ def run_seq(case, acc, count=True):
             feats.add("seq:fails-already-alone")
     elif v1 is not None:
         feats.add("seq:fails-already-alone")
-    _METHODS.clear()
+    _POOL[0] = None
     if count:
         acc.case(nontrivial=True, features=feats,
                  outcome="seq:ok" if report is None else "violation:second-call:" + report[0])
@@ -1231,6 +1257,36 @@ def _interleave_block(acc, k, step):
                 for inner in INNER_KINDS:
                     run_interleave({"interleave": {"a": a.item("a3"), "b": b.item("a3"), "k": adv, "inner": inner},
                                     "conn": "q" if (adv + len(inner)) % 2 else "p"}, acc)
+        if acc.expired():
+            return
+
+
+def _groupings(atoms):
+    """Condition lists with the same flattened (field, operator) sequence and different grouping."""
+    it = [a.item("a3") for a in atoms]
+    if len(it) == 3:
+        a, b, c = it
+        return [[a, b, c], [["or", [a, b], {}], c], [["or", [a, b, c], {}]], [a, ["or", [b, c], {}]],
+                [["or", [a], {}], ["or", [b], {}], c]]
+    a, b = it
+    return [[a, b], [["or", [a], {}], b], [["or", [a, b], {}]], [a, ["or", [b], {}]]]
+
+
+def _seq_groupings_block(acc, k, step):
+    reps = [REPS[i] for i in (0, 2, 10, 13)]
+    combos = [(a, b, c) for a in reps for b in reps for c in reps] + [(a, b) for a in reps for b in reps]
+    for atoms in combos[k::step]:
+        gs = _groupings(atoms)
+        for i, g1 in enumerate(gs):
+            for j, g2 in enumerate(gs):
+                if i == j:
+                    continue
+                for conn, order in (("q", "id"), ("p", "-")):
+                    c1 = {"items": g1, "kw": {}, "order": order, "via": "call", "method": "list", "conn": conn}
+                    c2 = {"items": g2, "kw": {}, "order": order, "via": "call", "method": "list", "conn": conn}
+                    rep = run_seq({"seq": [c1, c2]}, acc)
+                    acc.feat("seq:same-flat-sequence-other-grouping")
+                    del rep
         if acc.expired():
             return
 
